@@ -245,7 +245,8 @@ func DrawCSV(t *rapid.T, b CSVBounds) *CSVCase {
 		row := make([]string, ncols)
 		for i := range row {
 			if hugeCell && r == nrows-1 && i == 0 {
-				row[i] = strings.Repeat("0123456789abcdef", 1<<20) + "tail-of-the-cell"
+				// 16 MiB + 16 bytes, now and then 33 MiB + 16 bytes
+				row[i] = strings.Repeat("0123456789abcdef", []int{1 << 20, 1 << 20, 33 << 16}[rapid.IntRange(0, 2).Draw(t, "hugelen")]) + "tail-of-the-cell"
 				continue
 			}
 			if big {
